@@ -186,7 +186,27 @@ pub fn run_cop_on(sign: &Sign, op: &str) -> Option<Result<String, SignError>> {
         "CIN" => guarded(|| sign.configure_if_needed().map(|_| String::new())),
         "SND" => {
             let pages = pages_of_str(p[2]);
-            guarded(|| sign.send_pages(&pages).map(|s| format!(".{}", str_style(s))))
+            // send_pages takes any cloneable iterator of page references: a slice, a filtered iterator (no exact size),
+            // a flattened nest and a from_fn generator (no upper bound) are all "that list of pages"
+            let kind = pages.iter().map(|pg| pg.as_bytes().iter().map(|b| *b as usize).sum::<usize>()).sum::<usize>() % 4;
+            match kind {
+                0 => guarded(|| sign.send_pages(&pages).map(|s| format!(".{}", str_style(s)))),
+                1 => guarded(|| sign.send_pages(pages.iter().filter(|pg| pg.width() < u32::MAX)).map(|s| format!(".{}", str_style(s)))),
+                2 => {
+                    let nested: Vec<Vec<&Page<'static>>> = pages.chunks(2).map(|c| c.iter().collect()).collect();
+                    guarded(|| sign.send_pages(nested.iter().flatten().copied()).map(|s| format!(".{}", str_style(s))))
+                }
+                _ => {
+                    let slice = &pages[..];
+                    let mut i = 0usize;
+                    let it = std::iter::from_fn(move || {
+                        let r = slice.get(i);
+                        i += 1;
+                        r
+                    });
+                    guarded(|| sign.send_pages(it).map(|s| format!(".{}", str_style(s))))
+                }
+            }
         }
         "SHW" => guarded(|| sign.show_loaded_page().map(|_| String::new())),
         "LNX" => guarded(|| sign.load_next_page().map(|_| String::new())),
@@ -340,8 +360,27 @@ fn eval_case_inner(line: &str) -> String {
         "WIRES" => {
             // several messages written one after the other to a byte stream with Frame::write and read back with
             // Frame::read: each comes back as itself, nothing is left over
-            let msgs: Vec<Message<'static>> = t[1..].iter().map(|s| msg_of_str(s)).collect();
+            let failed_first = t.get(1) == Some(&"!");
+            let msgs: Vec<Message<'static>> = t[if failed_first { 2 } else { 1 }..].iter().map(|s| msg_of_str(s)).collect();
             let r = guarded(|| {
+                if failed_first {
+                    // an earlier write of some other frame to a writer that accepts 5 bytes and then fails
+                    struct Failing(usize);
+                    impl std::io::Write for Failing {
+                        fn write(&mut self, buf: &[u8]) -> std::io::Result<usize> {
+                            if self.0 == 0 {
+                                return Err(std::io::Error::new(std::io::ErrorKind::BrokenPipe, "gone"));
+                            }
+                            let n = buf.len().min(self.0);
+                            self.0 -= n;
+                            Ok(n)
+                        }
+                        fn flush(&mut self) -> std::io::Result<()> {
+                            Ok(())
+                        }
+                    }
+                    let _ = Frame::from(msg_of_str("RS.4660.PSH")).write(&mut Failing(5));
+                }
                 let mut stream: Vec<u8> = vec![];
                 for m in &msgs {
                     if Frame::from(m.clone()).write(&mut stream).is_err() {
@@ -429,6 +468,16 @@ fn eval_case_inner(line: &str) -> String {
         "PN" => match guarded(|| Page::new(PageId(num(t[1])), num(t[2]), num(t[3]))) {
             None => "PANIC".to_string(),
             Some(p) => hex_of_bytes(p.as_bytes()),
+        },
+        "PNL" => match guarded(|| Page::new(PageId(num(t[1])), num(t[2]), num(t[3]))) {
+            // a large page described by its length and byte counts only
+            None => "PANIC".to_string(),
+            Some(p) => {
+                let b = p.as_bytes();
+                let zeros = b.iter().skip(4).filter(|x| **x == 0).count();
+                let ff = b.iter().skip(4).filter(|x| **x == 0xFF).count();
+                format!("len={} zeros={} ff={} first={}", b.len(), zeros, ff, b.iter().take(4).map(|x| x.to_string()).collect::<Vec<_>>().join("."))
+            }
         },
         "PBO" => {
             // from_bytes over an OWNED buffer (Vec) instead of a borrowed slice
